@@ -499,3 +499,105 @@ Proof.
            assert (R5 : RInv r5) by (eapply on_error_inv; eauto with inv).
            destruct rec; inversion H; subst; exact R5.
 Qed.
+
+(* ---------------------------------------------------------------- execute_do, the scheduler, actions *)
+Lemma execute_do_inv : forall fuel r n x r', execute_do fuel r n = Ok (x, r') -> RInv r -> RInv r'.
+Proof.
+  induction fuel as [|fuel IH]; intros r n x r' H R; cbn [execute_do] in H; [discriminate|].
+  destruct (r_exit_req r); [inversion H; subst; exact R|].
+  destruct n as [|n]; [inversion H; subst; exact R|].
+  unfold bindr in H. destruct (do_iter r) as [it| | |] eqn:E; try discriminate.
+  pose proof (do_iter_inv _ _ E R) as R1.
+  destruct it; cbn [rt_of] in R1; [eapply IH; eauto|eapply IH; eauto|inversion H; subst; exact R1].
+Qed.
+
+Lemma forall_remove_nth {A} (P:A->Prop) : forall l i, Forall P l -> Forall P (remove_nth l i).
+Proof.
+  induction l as [|a l IH]; intros i F; cbn; [constructor|]. inversion F; subst. destruct i; [assumption|constructor; auto].
+Qed.
+
+Lemma start_pass_inv : forall fuel r i x p, start_pass fuel r i x = Ok p -> RInv r ->
+  RInv (match p with PassDone _ r' | PassExit _ r' => r' end).
+Proof.
+  induction fuel as [|fuel IH]; intros r i x p H R; cbn [start_pass] in H; [discriminate|].
+  destruct (Nat.leb (length (r_ctxs r)) i); [inversion H; subst; exact R|].
+  destruct (cur (set_active r (Some i))) as [c00|] eqn:EC; [|discriminate].
+  assert (I00 : Inv c00) by (eapply inv_cur; [|exact EC]; auto with inv).
+  set (c := if c_terminate c00 then set_suspended (set_values (set_frames c00 []) []) false (c_wakeup c00) else c00) in H.
+  assert (I : Inv c) by (unfold c; destruct (c_terminate c00); [exact Logic.I|exact I00]).
+  set (r0 := upd_cur (set_active r (Some i)) c) in H.
+  assert (R0 : RInv r0) by (unfold r0; auto with inv).
+  unfold bindr in H.
+  match type of H with context [match ?s with Ok _ => _ | _ => _ end] => destruct s as [[x1 r2]| | |] eqn:ES; try discriminate end.
+  assert (R2 : RInv r2).
+  { destruct (c_suspended c).
+    - unfold now in ES. cbv beta iota zeta in ES.
+      match type of ES with context [if ?b then _ else _] => destruct b end.
+      + eapply execute_do_inv; [exact ES|]. auto with inv.
+      + inversion ES; subst. auto with inv.
+    - eapply execute_do_inv; eauto. }
+  destruct (r_exit_req r2); [inversion H; subst; apply rinv_set_state, rinv_set_ctxs; constructor|].
+  destruct x1; try (inversion H; subst; exact R2).
+  - (* REmpty: erase *)
+    match type of H with context [remove_nth (r_ctxs ?r3) i] => assert (R3 : RInv r3) end.
+    { destruct (cur r2) as [c2|]; [|exact R2]. destruct (c_values c2); [exact R2|].
+      destruct (show true v); auto with inv. }
+    match type of H with context [set_ctxs ?r3 (remove_nth (r_ctxs ?r3) i)] =>
+      assert (R4 : RInv (set_ctxs r3 (remove_nth (r_ctxs r3) i))) by (apply rinv_set_ctxs, forall_remove_nth; exact R3) end.
+    match type of H with context [match r_ctxs ?r4 with [] => _ | _ => _ end] => destruct (r_ctxs r4) eqn:EL end.
+    + inversion H; subst. auto with inv.
+    + eapply IH; eauto.
+  - (* ROk *) eapply IH; eauto.
+Qed.
+
+Lemma start_loop_inv : forall fuel r x y r', start_loop fuel r x = Ok (y, r') -> RInv r -> RInv r'.
+Proof.
+  induction fuel as [|fuel IH]; intros r x y r' H R; cbn [start_loop] in H; [discriminate|].
+  destruct (r_ctxs r) eqn:EL; [inversion H; subst; exact R|].
+  unfold bindr in H. destruct (start_pass exec_fuel r 0 x) as [p| | |] eqn:E; try discriminate.
+  pose proof (start_pass_inv _ _ _ _ _ E R) as RP.
+  destruct p; [eapply IH; eauto|inversion H; subst; exact RP].
+Qed.
+
+Lemma finish_action_inv x r : RInv r -> RInv (finish_action x r).
+Proof.
+  intros R. unfold finish_action. apply rinv_set_run.
+  assert (RS : RInv (state_of_result x r)) by (destruct x; cbn; auto with inv).
+  destruct (r_exit_req (state_of_result x r)); [|exact RS].
+  apply rinv_set_state, rinv_set_active, rinv_set_ctxs. constructor.
+Qed.
+
+Lemma begin_run_inv r : RInv r -> RInv (begin_run_if_empty r).
+Proof. intros R. unfold begin_run_if_empty, now. destruct (r_state r); cbv beta iota zeta; auto 6 with inv. Qed.
+
+Lemma resolve_active_inv r : RInv r -> RInv (resolve_active r).
+Proof.
+  intros R. unfold resolve_active. destruct (r_active r); [exact R|]. destruct (r_ctxs r) eqn:E; [|auto with inv].
+  apply rinv_set_active, rinv_set_next_id, rinv_set_ctxs. constructor; [apply inv_new_context|constructor].
+Qed.
+
+(* every action preserves the invariant *)
+Theorem execute_inv a r x r' : execute a r = Ok (x, r') -> RInv r -> RInv r'.
+Proof.
+  intros H R. destruct a; cbn [execute] in H.
+  - destruct (r_run r); [inversion H; subst; exact R|]. unfold bindr in H.
+    match type of H with context [start_loop ?f ?r0 ?y] => destruct (start_loop f r0 y) as [[z r1]| | |] eqn:E; try discriminate;
+      assert (R1 : RInv r1) by (eapply start_loop_inv; [exact E|]; auto 8 using begin_run_inv with inv) end.
+    inversion H; subst. apply finish_action_inv; exact R1.
+  - destruct (r_state r); try (inversion H; subst; exact R). destruct (r_run r); inversion H; subst; auto with inv.
+  - destruct (r_state r); try (inversion H; subst; exact R); destruct (r_run r); inversion H; subst; auto with inv.
+    all: try exact R. all: apply rinv_set_run, rinv_set_state, rinv_set_active, rinv_set_ctxs; constructor.
+  - destruct (r_run r); [inversion H; subst; exact R|]. unfold bindr in H.
+    match type of H with context [execute_do ?f ?r0 1] => destruct (execute_do f r0 1) as [[z r1]| | |] eqn:E; try discriminate;
+      assert (R1 : RInv r1) by (eapply execute_do_inv; [exact E|]; apply resolve_active_inv; auto 8 using begin_run_inv with inv) end.
+    inversion H; subst. apply finish_action_inv; exact R1.
+  - discriminate.
+  - discriminate.
+Qed.
+
+Lemma load_inv r c : RInv r -> RInv (load r c).
+Proof.
+  intros R. unfold load. apply rinv_set_next_id, rinv_spawn; [exact R|]. apply inv_push_frame, inv_new_context.
+Qed.
+Lemma create_inv d m t l s : RInv (create_rt d m t l s).
+Proof. unfold RInv. cbn. constructor. Qed.
